@@ -110,6 +110,11 @@ def execT {W} (P : Prims W) : Nat → Task → W → Handled → Option (W × Ou
       (match P.ev w i with
        | (w1, .val v) => some (w1, .ret v)
        | (w1, .raise c) => some (w1, .exc c ln))
+    | .yieldS ln i =>
+      -- the consumer receives the value; the generator goes on when it is asked for the next one
+      (match P.ev w i with
+       | (w1, .val v) => some (P.yielded w1 (.int v), .normal)
+       | (w1, .raise c) => some (w1, .exc c ln))
     | .raise ln c => some (w, .exc c ln)
     | .reraise ln =>
       -- bare `raise`: the exception being handled, with its own traceback; none: RuntimeError here
@@ -195,7 +200,7 @@ def execFn {W} (P : Prims W) (fuel : Nat) (body : Stmt) (w : W) : Option (W × F
 statement; `inFin` = a `finally` body lies between the statement and that loop. -/
 def wf : Bool → Bool → Stmt → Bool
   | _, _, .skip | _, _, .pass _ | _, _, .ev _ _ | _, _, .ret _ _ | _, _, .raise _ _ => true
-  | _, _, .reraise _ | _, _, .raiseX _ _ => true
+  | _, _, .reraise _ | _, _, .raiseX _ _ | _, _, .yieldS _ _ => true
   | inLoop, _, .brk _ => inLoop
   | inLoop, inFin, .cont _ => inLoop && !inFin
   | l, fi, .seq a b => wf l fi a && wf l fi b
@@ -205,6 +210,27 @@ def wf : Bool → Bool → Stmt → Bool
   | l, fi, .tryF _ b f => wf l fi b && wf l true f
   | l, fi, .tryE _ b _ h1 _ h2 o => wf l fi b && wf l fi h1 && wf l fi h2 && wf l fi o
   | l, fi, .withS _ _ b => wf l fi b
+
+/-! ## leaving k nested try/finally statements -/
+
+/-- `s` inside k nested `try ... finally` statements, innermost finally body first -/
+def wrapF (s : Stmt) : List (Nat × Stmt) → Stmt
+  | [] => s
+  | (ln, fin) :: rest => wrapF (.tryF ln s fin) rest
+
+/-- the finally bodies `fins` (innermost first) run one after the other from world `w` to world `w'`,
+each to a normal end; the first with fuel `f`, the next with `f + 1`, .. (what the nested `try`
+statements hand them) -/
+inductive FinChain {W} (P : Prims W) (hd : Handled) : Nat → List (Nat × Stmt) → W → W → Prop
+  | nil (f : Nat) (w : W) : FinChain P hd f [] w w
+  | cons {f : Nat} {ln : Nat} {fin : Stmt} {rest : List (Nat × Stmt)} {w w1 w2 : W} :
+      execS P f fin w hd = some (w1, .normal) → FinChain P hd (f + 1) rest w1 w2 →
+      FinChain P hd f ((ln, fin) :: rest) w w2
+
+/-- test helper for the non-vacuity examples: the frame returned `v` in world `w` -/
+def isRet : Option (Exit Nat) → Val → Nat → Bool
+  | some (.ret v w), v', w' => v == v' && w == w'
+  | _, _, _ => false
 
 /-! ## Python's block-stack rule -/
 
